@@ -190,6 +190,191 @@ func sortedKeys(m map[string]bool) []string {
 	return out
 }
 
+// c26d: the FIFO relies on bbolt iterating its keys in index order (First, Seek,
+// Next, range deletes): bbolt compares keys bytewise, which is numeric order
+// only for fixed-width big-endian integers. Every integer ↔ key conversion in
+// package cdc is big-endian.
+func c26d(c *core.Ctx) {
+	sp := c.P.SPkg("cdc")
+	if sp == nil {
+		return
+	}
+	big := 0
+	for _, fn := range pkgFuncs(sp) {
+		for _, ci := range an.AllCalls(fn, false) {
+			id := an.CalleeID(ci)
+			if len(id) < len("encoding/binary.") || id[:len("encoding/binary.")] != "encoding/binary." {
+				continue
+			}
+			switch {
+			case len(id) > 26 && id[:26] == "encoding/binary.bigEndian.":
+				big++
+			case len(id) > 29 && id[:29] == "encoding/binary.littleEndian.":
+				c.Bad("C26.d", "CONST", core.FuncName(fn)+":key-byte-order", c.P.Pos(ci.Pos()),
+					core.FuncName(fn)+" converts an index to or from a bbolt key little-endian: bbolt orders keys bytewise, so indexes that differ in a higher byte (255 and 256) are stored out of numeric order — FirstKey, the read cursor and DeleteRange then skip, reorder or keep the wrong items", nil)
+			default:
+				if cc := ci.Common(); cc.IsInvoke() {
+					c.Bad("C26.d", "CONST", core.FuncName(fn)+":key-byte-order", c.P.Pos(ci.Pos()), core.FuncName(fn)+" converts an index with a byte order chosen at run time", nil)
+				}
+			}
+		}
+	}
+	c.Count("big-endian key conversions in package cdc", big)
+	c.Min("big-endian key conversions in package cdc", 2)
+	if big >= 2 {
+		c.OK("C26.d", "CONST", "cdc:key-byte-order", "", "indexes are converted to bbolt keys big-endian (bytewise order = numeric order)")
+	}
+}
+
+// c27c: the column names of a changed row are looked up from inside the commit
+// hook; an event whose lookup fails is delivered without its before/after
+// images. Nothing on that path gives the lookup a deadline of its own (the only
+// way it can fail while the table exists is by being cut short).
+func c27c(c *core.Ctx) {
+	hook := c.Fn("C27.e", "db", "(*CDCStreamer).CommitHook")
+	if hook == nil {
+		return
+	}
+	roots := []*ssa.Function{hook}
+	if cn := c.P.Func("db", "(*DB).ColumnNames"); cn != nil && len(cn.Blocks) > 0 {
+		roots = append(roots, cn)
+	} else {
+		c.Unk("C27.e", "ANCHOR", "db.(*DB).ColumnNames", "", "anchor function not found")
+		return
+	}
+	n := 0
+	for _, fn := range roots {
+		for _, f := range an.WithClosures(fn) {
+			c.Touch(f)
+			for _, ci := range an.AllCalls(f, false) {
+				n++
+				if an.IsCall(ci.(ssa.Instruction), "context.WithTimeout", "context.WithDeadline") {
+					c.Bad("C27.e", "CONST", core.FuncName(f)+":no-deadline-on-column-lookup", c.P.Pos(ci.Pos()),
+						core.FuncName(f)+" puts a deadline on the column-name lookup the commit hook depends on: when the read pool is busy for longer the lookup fails, and the events of a write that committed normally are delivered without column names and row images", nil)
+				}
+			}
+		}
+	}
+	c.Count("calls on the commit hook's column lookup path", n)
+	c.Min("calls on the commit hook's column lookup path", 3)
+	ok := true
+	for _, o := range c.Obls {
+		if o.Clause == "C27.e" && o.Verdict != core.Discharged {
+			ok = false
+		}
+	}
+	if ok {
+		c.OK("C27.e", "CONST", "CommitHook:column-lookup-has-no-deadline", c.P.Pos(hook.Pos()), "the column-name lookup of the commit hook runs without a deadline of its own")
+	}
+}
+
+// c36e: the throttle wait is bounded by the caller's context, and a request
+// whose context ended while it waited is not written: from every call of
+// Throttler.Delay in the store's write paths, each path to the consensus step
+// passes the nil edge of Delay's own error or of a ctx.Err() test made after
+// the wait.
+func c36e(c *core.Ctx) {
+	n := 0
+	for _, name := range []string{"(*Store).Execute", "(*Store).Request"} {
+		fn := c.Fn("C36.e", "store", name)
+		if fn == nil {
+			continue
+		}
+		for i, d := range an.CallsTo(fn, false, "store/throttler.Throttler.Delay") {
+			n++
+			gate := an.SenseEdges(fn, an.ErrResult(d), an.IsNil)
+			for _, e := range an.CallsTo(fn, false, "context.Context.Err") {
+				for ed := range an.SenseEdges(fn, []ssa.Value{e.Value()}, an.IsNil) {
+					gate[ed] = true
+				}
+			}
+			h := an.Ungated(an.CutSpec{Fn: fn, Start: d.(ssa.Instruction), GateEdge: gate, LiftSinks: true,
+				Sink: func(in ssa.Instruction) bool {
+					return an.IsCall(in, "store.Store.execute", "github.com/hashicorp/raft.Raft.Apply")
+				}})
+			c.Sites++
+			c.Result(len(h) == 0, "C36.e", "ORD", fmt.Sprintf("%s:Delay#%d:context-checked-after-wait", name, i+1), c.P.Pos(d.Pos()),
+				"after the throttle wait the request goes on only if the wait (or a later ctx.Err test) reports the context still live",
+				name+" can hand the write to consensus after Throttler.Delay without looking at the wait's error or at ctx.Err(): a request whose context ended during the throttle wait is still committed and acknowledged", nil)
+		}
+	}
+	c.Count("throttle waits in the store's write paths", n)
+	c.Min("throttle waits in the store's write paths", 2)
+}
+
+// c32e: the two reap timeouts reach the store as configured: in cmd/rqlited the
+// read-only-node timeout is assigned from its own setting and from nothing else
+// (unset means "never reap read-only nodes"), likewise the voter timeout.
+func c32e(c *core.Ctx) {
+	sp := c.P.SPkg("cmd/rqlited")
+	if sp == nil {
+		c.Unk("C32.e", "ANCHOR", "cmd/rqlited", "", "package not loaded")
+		return
+	}
+	want := map[string]string{"ReapReadOnlyTimeout": "RaftReapReadOnlyNodeTimeout", "ReapTimeout": "RaftReapNodeTimeout"}
+	n := 0
+	for _, fn := range pkgFuncs(sp) {
+		an.Instrs(fn, func(in ssa.Instruction) {
+			st, ok := in.(*ssa.Store)
+			if !ok {
+				return
+			}
+			t, f, _, ok := an.FieldOf(st.Addr)
+			if !ok || t != "Store" || want[f] == "" {
+				return
+			}
+			n++
+			c.Sites++
+			c.Result(an.LoadedField(an.Unwrap(st.Val), "Config", want[f]), "C32.e", "CONST", core.FuncName(fn)+":"+f+":from-its-own-setting", c.P.Pos(in.Pos()),
+				"Store."+f+" is the configured "+want[f],
+				core.FuncName(fn)+" assigns Store."+f+" something other than the configured "+want[f]+": an unset timeout (\"never reap this kind of node\") is replaced by another value and nodes of that kind are removed from the cluster", nil)
+		})
+	}
+	c.Count("reap timeout assignments in cmd/rqlited", n)
+	c.Min("reap timeout assignments in cmd/rqlited", 2)
+}
+
+// c35e: running out of file descriptors (EMFILE/ENFILE, which any client can
+// provoke by holding connections open) must not end the inter-node listener for
+// good: Mux.Serve asks the Accept error whether it is temporary and, on the true
+// edge, reaches Accept again without closing the listeners.
+func c35e(c *core.Ctx) {
+	fn := c.Fn("C35.e", "tcp", "(*Mux).Serve")
+	if fn == nil {
+		return
+	}
+	var accepts []ssa.CallInstruction
+	var temps []ssa.Value
+	for _, ci := range an.AllCalls(fn, false) {
+		cc := ci.Common()
+		if cc.IsInvoke() && cc.Method.Name() == "Accept" {
+			accepts = append(accepts, ci)
+		}
+		if cc.IsInvoke() && cc.Method.Name() == "Temporary" && ci.Value() != nil {
+			temps = append(temps, ci.Value())
+		}
+	}
+	c.Count("Accept calls in Mux.Serve", len(accepts))
+	c.Min("Accept calls in Mux.Serve", 1)
+	ok := false
+	if len(accepts) > 0 && len(temps) > 0 {
+		acc := accepts[0].(ssa.Instruction)
+		for e := range an.SenseEdges(fn, temps, an.IsTrue) {
+			// from the "temporary" edge Accept is reached again before any return
+			h := an.Ungated(an.CutSpec{Fn: fn, StartBlocks: []*ssa.BasicBlock{e.To}, NoLift: true,
+				GateInstr: func(in ssa.Instruction) bool { return in == acc },
+				Sink:      func(in ssa.Instruction) bool { _, isRet := in.(*ssa.Return); return isRet }})
+			if len(h) == 0 {
+				ok = true
+			}
+		}
+	}
+	c.Sites++
+	c.Result(ok, "C35.e", "DOM", "Mux.Serve:temporary-accept-error-retried", c.P.Pos(fn.Pos()),
+		"a temporary Accept error (EMFILE, ENFILE, ECONNABORTED …) is retried",
+		"Mux.Serve no longer retries Accept errors that report Temporary(): when the process runs out of file descriptors — which a client holding idle connections can cause — Serve closes every listener and returns, and the node stops serving the inter-node port until it is restarted", nil)
+}
+
 // stepHelpersOf: the step-policy helpers fn calls (one level).
 func stepHelpersOf(fn *ssa.Function) []*ssa.Function {
 	var out []*ssa.Function
